@@ -26,6 +26,10 @@ def run(ctx):
     else:
         ctx.ties_broken.append("harness:h_codec / mdrv unavailable: " + (hlog or "")[-300:])
     found = CC.report(ctx, "C03", fails)
+    # the publish operation itself: real publish_send_op on a mock service, lock-step with Model/PubSend.lean, operation rules on its traces
+    import pubsend_check
+    found = pubsend_check.run(ctx, 1500 if ctx.tier == "quick" else 60000) or found
+    ctx.cov["rule"] += "; plus H-pubsend: scripts of async_send / async_wait_reply completions (ok, try_again, aborted; lost, undecodable, inadmissible and failing acknowledgements; cancellation) on the real publish_send_op QoS 1 and 2"
     report_broken_ties(ctx, found)
     if ctx.tier == "thorough" and not ctx.ties_broken:
         for m, msg in leanchecker(ctx.lean.get("modules", [])):
